@@ -47,15 +47,14 @@ Proof. reflexivity. Qed.
 
 Lemma create_sets p n u :
   dom_ok (ufs u) -> look (ufs u) p = None -> parent_ok (ufs u) p = true ->
-  (forall t, n = Link t -> parent p = []) ->
   sets [create_cmd p n] p n u.
 Proof.
-  intros D L P LK. unfold sets. destruct n as [c x| |t]; simpl.
+  intros D L P. unfold sets. destruct n as [c x| |t]; simpl.
   - unfold t_put. rewrite P, L. simpl. eexists. split; [reflexivity|]. simpl.
     split; [apply dom_ok_set; exact D|]. repeat split; reflexivity.
   - unfold t_mkdir. rewrite P, L. simpl. eexists. split; [reflexivity|]. simpl.
     split; [apply dom_ok_set; exact D|]. repeat split; reflexivity.
-  - unfold t_symlink. rewrite (LK t eq_refl). simpl. rewrite P, L. simpl.
+  - unfold force_clear, t_stat. rewrite L. simpl. unfold t_symlink. rewrite under_app, P, L. simpl.
     eexists. split; [reflexivity|]. simpl.
     split; [apply dom_ok_set; exact D|]. repeat split; reflexivity.
 Qed.
@@ -66,10 +65,9 @@ Definition del_cmd (o : node) (p : path) : cmd :=
 Lemma replace_sets p o n u :
   dom_ok (ufs u) -> p <> [] -> look (ufs u) p = Some o -> parent_ok (ufs u) p = true ->
   (o = Dir -> forall x s, look (ufs u) (p ++ x :: s) = None) ->
-  (forall t, n = Link t -> parent p = []) ->
   sets [del_cmd o p; create_cmd p n] p n u.
 Proof.
-  intros D NE L P CH LK.
+  intros D NE L P CH.
   assert (exists u1, exec_cmd (del_cmd o p) u = (u1, None) /\ ufs u1 = fs_del p (ufs u) /\
                      pdel u1 = pdel u /\ pren u1 = pren u /\ ntmp u1 = ntmp u) as (u1 & E1 & F1 & A & B & C).
   { destruct o; simpl.
@@ -82,7 +80,6 @@ Proof.
   - rewrite F1, look_del, path_eqb_refl. reflexivity.
   - rewrite F1. rewrite <- P. apply parent_ok_ext. intros _.
     rewrite look_del, path_eqb_neq; [reflexivity|apply parent_ne; exact NE].
-  - exact LK.
   - exists u'. split.
     + change [del_cmd o p; create_cmd p n] with ([del_cmd o p] ++ [create_cmd p n]).
       eapply run_app_ok; [|exact E']. simpl. rewrite E1. reflexivity.
@@ -100,7 +97,7 @@ Qed.
 
 (* ---------- kind changes ---------- *)
 Definition kc_cmds (c : change) : list cmd :=
-  [del_cmd (enode (c_old c)) (epath (c_old c)); create_cmd (epath (c_new c)) (enode (c_new c))].
+  [del_cmd (enode (c_old c)) (epath (c_new c)); create_cmd (epath (c_new c)) (enode (c_new c))].
 Definition kc_item (c : change) : path * node := (epath (c_new c), enode (c_new c)).
 
 Lemma cmds_kind_changed_noign new l :
@@ -115,11 +112,10 @@ Proof. intros I. rewrite map_map. apply in_map_iff. exists c. split; [reflexivit
 
 Definition kc_pre (f : fs) (c : change) : Prop :=
   let p := epath (c_new c) in
-  epath (c_old c) = p /\ p <> [] /\
+  p <> [] /\
   look f p = Some (enode (c_old c)) /\
   parent_ok f p = true /\
-  (enode (c_old c) = Dir -> forall x s, look f (p ++ x :: s) = None) /\
-  (forall t, enode (c_new c) = Link t -> parent p = []).
+  (enode (c_old c) = Dir -> forall x s, look f (p ++ x :: s) = None).
 
 Lemma phase_kc : forall l u,
   dom_ok (ufs u) ->
@@ -131,17 +127,17 @@ Lemma phase_kc : forall l u,
 Proof.
   induction l as [|c l IH]; intros u D ND H.
   - exists u. repeat split; auto.
-  - destruct (H c (or_introl eq_refl)) as (EP & NE & L & P & CH & LK).
+  - destruct (H c (or_introl eq_refl)) as (NE & L & P & CH).
     set (p := epath (c_new c)) in *.
-    destruct (replace_sets p (enode (c_old c)) (enode (c_new c)) u D NE L P CH LK)
+    destruct (replace_sets p (enode (c_old c)) (enode (c_new c)) u D NE L P CH)
       as (u1 & E1 & D1 & A1 & B1 & C1 & L1).
     simpl in ND. inversion ND as [|? ? NI ND']; subst.
     destruct (IH u1 D1 ND') as (u' & E' & D' & A' & B' & C' & L').
-    { intros c' I. destruct (H c' (or_intror I)) as (EP' & NE' & L0 & P0 & CH0 & LK0).
+    { intros c' I. destruct (H c' (or_intror I)) as (NE' & L0 & P0 & CH0).
       set (p' := epath (c_new c')) in *.
       assert (p' <> p) as NPP.
       { intros E. apply NI. fold p. rewrite <- E. apply kc_item_In; exact I. }
-      unfold kc_pre. fold p'. split; [exact EP'|]. split; [exact NE'|]. split.
+      unfold kc_pre. fold p'. split; [exact NE'|]. split.
       - rewrite L1. unfold upd1. rewrite path_eqb_neq by exact NPP. exact L0.
       - split.
         + rewrite <- P0. apply parent_ok_ext. intros PN. rewrite L1. unfold upd1.
@@ -153,12 +149,11 @@ Proof.
           * specialize (CH eq_refl x []). rewrite <- Ex, L0 in CH. discriminate.
           * unfold parent_ok in P0. rewrite E in P0. destruct p; [congruence|].
             rewrite L in P0. discriminate.
-        + split; [|exact LK0].
-          intros ED x s. rewrite L1. unfold upd1.
+        + intros ED x s. rewrite L1. unfold upd1.
           destruct (path_eqb_spec (p' ++ x :: s) p) as [E|_]; [|apply CH0; exact ED].
           exfalso. specialize (CH0 ED x s). rewrite E, L in CH0. discriminate. }
     exists u'. split.
-    + simpl flat_map. unfold kc_cmds at 1. rewrite EP. fold p.
+    + simpl flat_map. unfold kc_cmds at 1. fold p.
       change (?a :: ?b :: ?r) with ([a; b] ++ r).
       eapply run_app_ok; [exact E1|exact E'].
     + split; [exact D'|]. split; [congruence|]. split; [congruence|]. split; [congruence|].
@@ -235,17 +230,17 @@ Proof.
 Qed.
 End AddGen.
 
-Definition link_root (p : path) (n : node) : Prop := forall t, n = Link t -> parent p = [].
+Definition no_cond (p : path) (n : node) : Prop := True.
 
 Definition phase_add :=
-  phase_add_gen create_cmd link_root
-    (fun p n u D L P LK => create_sets p n u D L P LK).
+  phase_add_gen create_cmd no_cond
+    (fun p n u D L P _ => create_sets p n u D L P).
 
 (* ---------- modifications ---------- *)
 Definition mod_cmd (c : change) : cmd :=
   match enode (c_new c) with
   | File cc x => UploadFile (epath (c_new c)) cc x
-  | Link t => Symlink [t] (epath (c_new c))
+  | Link t => SymlinkRobust (epath (c_new c)) t
   | Dir => Raise NotImplemented
   end.
 
@@ -254,9 +249,36 @@ Proof.
   intros H. unfold cmds_modified. apply flat_map_single. intros c. apply is_ignored_nil; exact H.
 Qed.
 
+Lemma exec_symlink_robust p t u f1 :
+  force_clear true p (ufs u) = (f1, None) ->
+  exec_cmd (SymlinkRobust p t) u =
+  with_fs (mkust f1 (pdel u) (pren u) (ntmp u)) (t_symlink (parent p ++ [t]) p f1).
+Proof. intros H. unfold exec_cmd. rewrite H. reflexivity. Qed.
+
+Lemma relink_sets p t cur u :
+  dom_ok (ufs u) -> p <> [] -> look (ufs u) p = Some cur -> cur <> Dir ->
+  parent_ok (ufs u) p = true ->
+  sets [SymlinkRobust p t] p (Link t) u.
+Proof.
+  intros D NE L ND P.
+  assert (force_clear true p (ufs u) = (fs_del p (ufs u), None)) as FC.
+  { unfold force_clear, t_stat. rewrite L. unfold t_delete. rewrite L.
+    destruct cur; try congruence; reflexivity. }
+  assert (parent_ok (fs_del p (ufs u)) p = true) as P'.
+  { rewrite <- P. apply parent_ok_ext. intros _.
+    rewrite look_del, path_eqb_neq; [reflexivity|apply parent_ne; exact NE]. }
+  unfold sets. cbn [run]. rewrite (exec_symlink_robust _ _ _ _ FC).
+  unfold t_symlink. rewrite under_app, P'. simpl. rewrite path_eqb_refl. simpl.
+  eexists. split; [reflexivity|]. simpl.
+  split; [apply dom_ok_set; apply dom_ok_del; exact D|].
+  repeat split; try reflexivity.
+  intros q. unfold upd1. destruct (path_eqb q p); reflexivity.
+Qed.
+
+(* the new node is a file or a symlink; whatever is there is not a directory *)
 Definition mod_pre (f : fs) (c : change) : Prop :=
-  (exists cc x, enode (c_new c) = File cc x) /\
-  (exists c0 x0, look f (epath (c_new c)) = Some (File c0 x0)) /\
+  enode (c_new c) <> Dir /\ epath (c_new c) <> [] /\
+  (exists cur, look f (epath (c_new c)) = Some cur /\ cur <> Dir) /\
   parent_ok f (epath (c_new c)) = true.
 
 Lemma phase_mod : forall l u,
@@ -269,27 +291,31 @@ Lemma phase_mod : forall l u,
 Proof.
   induction l as [|c l IH]; intros u D ND H.
   - exists u. repeat split; auto.
-  - destruct (H c (or_introl eq_refl)) as ((cc & x & EN) & (c0 & x0 & L) & P).
+  - destruct (H c (or_introl eq_refl)) as (EN & NE & (cur & L & ND0) & P).
     set (p := epath (c_new c)) in *.
     simpl in ND. inversion ND as [|? ? NI ND']; subst.
     assert (exists u1, exec_cmd (mod_cmd c) u = (u1, None) /\ dom_ok (ufs u1) /\
                        pdel u1 = pdel u /\ pren u1 = pren u /\ ntmp u1 = ntmp u /\
                        forall q, look (ufs u1) q = upd1 p (enode (c_new c)) (look (ufs u)) q)
       as (u1 & E1 & D1 & A1 & B1 & C1 & L1).
-    { unfold mod_cmd. rewrite EN. fold p. simpl. unfold t_put. rewrite P, L. simpl.
-      eexists. split; [reflexivity|]. simpl. split; [apply dom_ok_set; exact D|].
-      repeat split; reflexivity. }
+    { unfold mod_cmd. fold p. destruct (enode (c_new c)) as [cc x| |t]; [|congruence|].
+      - simpl. unfold t_put. rewrite P, L. simpl.
+        eexists. split; [destruct cur; try congruence; reflexivity|]. simpl.
+        split; [apply dom_ok_set; exact D|]. repeat split; reflexivity.
+      - destruct (relink_sets p t cur u D NE L ND0 P) as (u1 & R1 & X).
+        exists u1. split; [|exact X]. cbn [run] in R1.
+        destruct (exec_cmd (SymlinkRobust p t) u) as [u2 [e|]]; [discriminate|]. exact R1. }
     destruct (IH u1 D1 ND') as (u' & E' & D' & A' & B' & C' & L').
-    { intros c' I. destruct (H c' (or_intror I)) as (EN' & (c1 & x1 & L0) & P0).
+    { intros c' I. destruct (H c' (or_intror I)) as (EN' & NE' & (cur' & L0 & ND1) & P0).
       set (p' := epath (c_new c')) in *.
       assert (p' <> p) as NPP.
       { intros E. apply NI. fold p. rewrite <- E. apply kc_item_In; exact I. }
-      split; [exact EN'|]. split.
-      - exists c1, x1. fold p'. rewrite L1. unfold upd1. rewrite path_eqb_neq by exact NPP. exact L0.
+      split; [exact EN'|]. split; [exact NE'|]. split.
+      - exists cur'. fold p'. rewrite L1. unfold upd1. rewrite path_eqb_neq by exact NPP. auto.
       - fold p'. rewrite <- P0. apply parent_ok_ext. intros PN. rewrite L1. unfold upd1.
         destruct (path_eqb_spec (parent p') p) as [E|_]; [|reflexivity].
         exfalso. unfold parent_ok in P0. rewrite E in P0. destruct p; [congruence|].
-        rewrite L in P0. discriminate. }
+        rewrite L in P0. destruct cur; try congruence; discriminate. }
     exists u'. split.
     + simpl. rewrite E1. exact E'.
     + split; [exact D'|]. split; [congruence|]. split; [congruence|]. split; [congruence|].
